@@ -13,7 +13,29 @@ pub const LEAVES: [&str; 5] = ["valid", "wronghost", "expired", "selfsigned", "u
 pub const ROOTS: [&str; 4] = ["none", "issuing-ca-pem", "issuing-ca-der", "unrelated-ca"];
 /// "true-then-false": ignore_tls_errors(true) followed by ignore_tls_errors(false) on the same builder -
 /// the last call wins, the client must verify
-pub const FLAGS: [&str; 4] = ["unset", "false", "true", "true-then-false"];
+/// "root-then-true-then-false" / "true-then-root-then-false": the same two calls with ca_cert() before /
+/// between them (by default ca_cert() is the last builder call) - the final configuration is identical
+/// "root-then-true": ca_cert() first, then the opt-out
+pub const FLAGS: [&str; 7] = ["unset", "false", "true", "true-then-false", "root-then-true-then-false", "true-then-root-then-false", "root-then-true"];
+
+/// does the builder history end with verification switched off?
+pub fn ends_permissive(flag: &str) -> bool {
+    flag == "true" || flag.ends_with("-then-true")
+}
+
+/// the builder calls a flag name stands for: 'T'/'F' = ignore_tls_errors(true/false), 'R' = ca_cert(root)
+pub fn builder_calls(flag: &str) -> &'static [char] {
+    match flag {
+        "unset" => &['R'],
+        "false" => &['F', 'R'],
+        "true" => &['T', 'R'],
+        "true-then-false" => &['T', 'F', 'R'],
+        "root-then-true-then-false" => &['R', 'T', 'F'],
+        "true-then-root-then-false" => &['T', 'R', 'F'],
+        "root-then-true" => &['R', 'T'],
+        _ => &['R'],
+    }
+}
 
 pub fn fixtures_dir() -> std::path::PathBuf {
     vcore::runner::verif_root().join("fixtures/tls")
@@ -66,7 +88,7 @@ impl Cell {
         let good = chains && host_ok; // "valid" = right host name, not expired, signed by the issuing CA
         if good {
             "must-accept"
-        } else if self.flag != "true" {
+        } else if !ends_permissive(self.flag) {
             "must-reject"
         } else {
             "not-asserted"
@@ -113,7 +135,7 @@ pub fn cell_order(order: u64) -> Vec<(&'static str, &'static str)> {
     let mut cells: Vec<(&'static str, &'static str)> = Vec::new();
     match order {
         0 => {
-            for flag in ["true", "true-then-false", "unset", "false"] {
+            for flag in ["true", "root-then-true", "true-then-false", "root-then-true-then-false", "true-then-root-then-false", "unset", "false"] {
                 for root in ["issuing-ca-pem", "issuing-ca-der", "unrelated-ca", "none"] {
                     cells.push((flag, root));
                 }
@@ -170,7 +192,7 @@ pub fn run_leaf(backend: &str, leaf: &'static str, hosts: &[&'static str], rt: &
                     if !(matches!(root, "issuing-ca-pem" | "issuing-ca-der" | "none") && matches!(flag, "unset" | "true") && leaf != "validtiny") {
                         continue;
                     }
-                } else if host != "localhost" && !(root == "issuing-ca-pem" && flag != "true" && leaf != "validtiny") {
+                } else if host != "localhost" && !(root == "issuing-ca-pem" && !ends_permissive(flag) && leaf != "validtiny") {
                     continue;
                 }
                 let server = if host == "[::1]" {
@@ -193,25 +215,25 @@ pub fn run_leaf(backend: &str, leaf: &'static str, hosts: &[&'static str], rt: &
                     let rb = root_bytes(root);
                     let outcome: Result<Result<IppRequestResponse, String>, String> = if client == "blocking" {
                         let mut b = IppClient::builder(uri).request_timeout(Duration::from_secs(20));
-                        if flag == "true-then-false" {
-                            b = b.ignore_tls_errors(true).ignore_tls_errors(false);
-                        } else if flag != "unset" {
-                            b = b.ignore_tls_errors(flag == "true");
-                        }
-                        if let Some(r) = &rb {
-                            b = b.ca_cert(r);
+                        for call in builder_calls(flag) {
+                            b = match (call, &rb) {
+                                ('T', _) => b.ignore_tls_errors(true),
+                                ('F', _) => b.ignore_tls_errors(false),
+                                (_, Some(r)) => b.ca_cert(r),
+                                _ => b,
+                            };
                         }
                         let c = b.build();
                         vcore::runner::catch(move || c.send(request()).map_err(|e| format!("{e:?}")))
                     } else {
                         let mut b = AsyncIppClient::builder(uri).request_timeout(Duration::from_secs(20));
-                        if flag == "true-then-false" {
-                            b = b.ignore_tls_errors(true).ignore_tls_errors(false);
-                        } else if flag != "unset" {
-                            b = b.ignore_tls_errors(flag == "true");
-                        }
-                        if let Some(r) = &rb {
-                            b = b.ca_cert(r);
+                        for call in builder_calls(flag) {
+                            b = match (call, &rb) {
+                                ('T', _) => b.ignore_tls_errors(true),
+                                ('F', _) => b.ignore_tls_errors(false),
+                                (_, Some(r)) => b.ca_cert(r),
+                                _ => b,
+                            };
                         }
                         let c = b.build();
                         vcore::runner::catch(move || rt.block_on(async move { c.send(request()).await.map_err(|e| format!("{e:?}")) }))
